@@ -454,6 +454,7 @@ def load_database(dbpath, rootdir):
     for command in db:
         # Skip commands that invoke unsupported tools.
         if not command.is_supported():
+            log.warning(f"Ignoring unsupported compile command: {command}")
             continue
 
         # Files may be specified:
